@@ -369,7 +369,7 @@ class Gen:
         self.path()
         # gap after the last token of the path, before '(' or 'returns': a comment there is
         # finding F10; it is generated only when opts["f10"] is set
-        after_path = "any-s" if self.o["f10"] else "path-end"
+        after_path = "f10" if (self.o["f10"] and r.random() < 0.5) else "path-end"
         x = r.random()
         if x < 0.75:
             self.body(after_path)
@@ -511,6 +511,9 @@ class Deco:
                 out.append(self.newline(indent))
             elif v == "nocomment":
                 out.append(r.choice(["", " ", "\n", "\n\n", " \n\t"]))
+            elif v == "f10":
+                # finding F10: a comment right after the route path, then a line break
+                out.append(self.ws() + (self.line_comment() if r.random() < 0.6 else self.block()) + "\n" + indent)
             elif v == "path-end":
                 # after the last token of a route path: never a comment (finding F10); blanks only
                 out.append(r.choice([" ", " ", "  ", "\t"]))
